@@ -404,7 +404,7 @@ def connected_components(edges, min_len=1, nodes=None, engine=None):
         # aren't discarded (as they aren't adjacent to anything)
         if min_len <= 1:
             graph.add_nodes_from(nodes)
-        return [list(i) for i in nx.connected_components(graph)]
+        return [list(i) for i in nx.connected_components(graph) if len(i) >= min_len]
 
     def components_csgraph():
         """
